@@ -4,6 +4,7 @@ use crate::driver::{fail, Ctx, PResult, Property, Tier};
 use crate::exact::*;
 use crate::gen::func::*;
 use crate::gen::inst::*;
+use crate::model::{EQ_ZERO, KIND_CONTINUOUS, LE_ZERO};
 use crate::props::c05::{describe_inst, fp_instance};
 use crate::tape::Tape;
 use ommx::v1;
@@ -25,7 +26,7 @@ impl Property for C09 {
          oracle = f + sum_c w_c g_c^2 (resp. f + w sum g_c^2) as an exact polynomial in the joint variables (x, w) + bookkeeping model; non-trivial = >=2 active constraints of degree>=1 or >=1 pre-existing removed constraint; distinct = sha256(instance, method, weights)"
     }
     fn required_labels(&self) -> Vec<String> {
-        ["method=per-constraint", "method=uniform", "pre-removed", "absent-function", "noncontiguous-ids", "instantiated", "hints", "dependency", "regime=general", "regime=dyadic", "removed-reason-of-sdk-transformation", "constraint-id=u64::MAX"].iter().map(|s| s.to_string()).collect()
+        ["method=per-constraint", "method=uniform", "pre-removed", "absent-function", "noncontiguous-ids", "instantiated", "hints", "dependency", "regime=general", "regime=dyadic", "removed-reason-of-sdk-transformation", "constraint-id=u64::MAX", "two-constraints-with-identical-function", "active-constraints=16", "active-constraints=32"].iter().map(|s| s.to_string()).collect()
     }
     fn cases(&self, tier: Tier) -> usize {
         match tier {
@@ -46,12 +47,54 @@ impl Property for C09 {
         let uniform = t.coin();
         let instantiate = t.p(120);
         let wseed: Vec<f64> = (0..6).map(|_| if t.p(32) { 0.0 } else { gen_coeff(t, Regime::Dyadic, false) }).collect();
+        let dup = if t.p(40) { Some(t.byte() as u64) } else { None };
+        let many = if t.p(16) { Some((*t.pick(&[15usize, 16, 17, 32, 33]), t.byte() as u64)) } else { None };
         let mut cfg = InstCfg::new(regime);
         cfg.hints = true;
         cfg.func.max_degree = 2;
         cfg.func.max_terms = 5;
         let gi = gen_instance(t, &cfg, ctx);
-        let inst = gi.inst.clone();
+        let mut inst = gi.inst.clone();
+        // two active constraints with the very same (longer) function: each still gets its own weight
+        if let (Some(seed), true) = (dup, inst.constraints.len() >= 2) {
+            let base = 7000u64;
+            for i in 0..9u64 {
+                let mut v = v1::DecisionVariable::default();
+                v.id = base + i;
+                v.kind = KIND_CONTINUOUS;
+                v.bound = Some(crate::mk::bound(-4.0, 4.0));
+                inst.decision_variables.push(v);
+            }
+            let mut qd = v1::Quadratic::default();
+            qd.rows = vec![base, base + 1];
+            qd.columns = vec![base + 1, base + 2];
+            qd.values = vec![derived_coeff(seed, 50), derived_coeff(seed, 51)];
+            qd.linear = Some(crate::mk::linear((0..9u64).map(|i| (base + i, derived_coeff(seed, i))).collect(), derived_coeff(seed, 60)));
+            let g = crate::mk::fquad(qd);
+            let last = inst.constraints.len() - 1;
+            inst.constraints[0].function = Some(g.clone());
+            inst.constraints[last].function = Some(g);
+            ctx.label("two-constraints-with-identical-function");
+        }
+        // many active constraints (counts around 16 and 32)
+        if let Some((target, seed)) = many {
+            let taken: BTreeSet<u64> = inst.constraints.iter().map(|c| c.id).chain(inst.removed_constraints.iter().filter_map(|rc| rc.constraint.as_ref().map(|c| c.id))).collect();
+            let mut k = 0u64;
+            while inst.constraints.len() < target {
+                k += 1;
+                if taken.contains(&(9000 + k)) {
+                    continue;
+                }
+                let mut c = v1::Constraint::default();
+                c.id = 9000 + k;
+                c.equality = if k % 2 == 0 { EQ_ZERO } else { LE_ZERO };
+                let x = gi.used_pool[(k as usize) % gi.used_pool.len()];
+                c.function = Some(crate::mk::flin(crate::mk::linear(vec![(x, derived_coeff(seed, k))], derived_coeff(seed, 1000 + k))));
+                inst.constraints.push(c);
+            }
+            ctx.label(format!("active-constraints={}", inst.constraints.len()));
+        }
+        let inst = inst;
         if inst.decision_variables.iter().any(|v| v.id >= u64::MAX - 8) {
             ctx.exclude("id-space-overflow");
             return Ok(());
